@@ -988,6 +988,22 @@ func ruleC06Snapstep(c *Ctx) {
 			c.Bad(rule, FnName(fn)+" | SnapIndx", "", "openLiveChain must set SnapIndx under the member's UserCreated flag", nil)
 		}
 	}
+	// RemoveIndex closes the file it removes: files[index] is closed while it still IS the removed
+	// file, i.e. before the list is spliced (afterwards that slot holds the removed file's child)
+	if fn := c.P.Fn(fDD + "RemoveIndex"); fn != nil {
+		R := NewRenderer(fn)
+		var cl []ssa.Instruction
+		for _, in := range CallsTo(fn, "invoke:Close") {
+			if strings.Contains(callRender(R, in), "($0.files[+$1])") || callRender(R, in) == "invoke.Close($0.files[+$1])" {
+				cl = append(cl, in)
+			}
+		}
+		if len(cl) == 1 {
+			c.Guard(rule, fn, StoresTo(fn, "diffDisk", "files"), "splice files", nil, Need{Desc: "removed file closed first", Instr: func(in ssa.Instruction) bool { return in == cl[0] }})
+		} else {
+			c.Bad(rule, FnName(fn)+" | closes the removed file", "", fmt.Sprintf("expected one Close of files[index], found %d", len(cl)), nil)
+		}
+	}
 	// RemoveIndex recomputes SnapIndx as the LAST true entry: an ascending scan that runs to its
 	// end (every later true entry overwrites), or a descending scan that stops at the first hit
 	if fn := c.Anchor(rule, fDD+"RemoveIndex"); fn != nil {
@@ -1031,6 +1047,50 @@ func ruleC06Snapstep(c *Ctx) {
 		if len(st) == 0 {
 			c.Bad(rule, FnName(fn)+" | SnapIndx recomputed", "", "RemoveIndex no longer recomputes SnapIndx after the splice", nil)
 		}
+	}
+	// the drain itself is a hand-shake with the consumer goroutine: the caller announces the drain,
+	// wakes the consumer with a sentinel and returns only once the consumer has answered DrainDone —
+	// i.e. when no punch request is in flight any more (one already taken off the queue included)
+	if fn := c.Anchor(rule, "replica.holeDrainer"); fn != nil {
+		R := NewRenderer(fn)
+		kStart, ok1 := c.P.pkgIntConst("types", "DrainStart")
+		kDone, ok2 := c.P.pkgIntConst("types", "DrainDone")
+		var rets []ssa.Instruction
+		for _, r := range Returns(fn) {
+			rets = append(rets, r)
+		}
+		if ok1 && ok2 {
+			c.Guard(rule, fn, rets, "return", nil,
+				Need{Desc: "drain announced (DrainOps = DrainStart)", Instr: func(in ssa.Instruction) bool {
+					s, ok := in.(*ssa.Store)
+					return ok && R.V(s.Addr) == "global:types.DrainOps" && R.V(s.Val) == fmt.Sprint(kStart)
+				}},
+				Need{Desc: "consumer woken through the queue", Instr: func(in ssa.Instruction) bool {
+					s, ok := in.(*ssa.Send)
+					return ok && R.V(s.Chan) == "replica.HoleCreatorChan"
+				}},
+				atom("consumer answered DrainDone", fmt.Sprintf("+types.DrainOps -%d ==0", kDone)))
+		} else {
+			c.Undecided(rule, "drain constants", "", "types.DrainStart / DrainDone not found")
+		}
+	}
+	if fn := c.Anchor(rule, "replica.CreateHoles"); fn != nil {
+		R := NewRenderer(fn)
+		kStart, _ := c.P.pkgIntConst("types", "DrainStart")
+		kDone, _ := c.P.pkgIntConst("types", "DrainDone")
+		var done []ssa.Instruction
+		eachInstr(fn, func(in ssa.Instruction) {
+			if s, ok := in.(*ssa.Store); ok && R.V(s.Addr) == "global:types.DrainOps" && R.V(s.Val) == fmt.Sprint(kDone) {
+				done = append(done, in)
+			}
+		})
+		if len(done) == 1 {
+			c.Guard(rule, fn, done, "answer DrainDone", nil, atom("a drain was announced", fmt.Sprintf("+types.DrainOps -%d ==0", kStart)), called("replica.drainHoleCreatorChan"))
+		} else {
+			c.Bad(rule, FnName(fn)+" | answers the drain", "", fmt.Sprintf("expected one store DrainOps = DrainDone in the consumer, found %d", len(done)), nil)
+		}
+		// the consumer tests for a drain before it touches the request it has just taken
+		c.Guard(rule, fn, CallsTo(fn, "syscall.Fallocate"), "punch", nil, atom("no drain announced", fmt.Sprintf("+types.DrainOps -%d !=0", kStart)))
 	}
 	// DRAIN
 	for _, d := range []struct {
